@@ -201,6 +201,22 @@ def shard_small(spec, R):
                     R.violation("C16:dask-dtype", f"zonal.mean on dask input declares {lazy.dtype} but computes {got.dtype} (requested {np.dtype(odt).name})", dict(case, accessor=True, dask=True))
                     continue
                 compare(R, "zonal.mean accessor (dask)", np.asarray(got.values), pref, zones, nz, nodata, z_nodata, odt, dict(case, accessor=True, dask=True))
+                # two lazy results over the same cube with different zone rasters (same name, dims, shape, dtype and ids),
+                # both given the same `name=`, evaluated in ONE graph: each must still be the mean over its own zones
+                zones_b = np.where(zones == z_nodata, z_nodata, (zones.astype(np.int64) + 1) % max(1, nz)).astype(zones.dtype)[::-1, ::-1].copy()
+                zb = xr.DataArray(zones_b, dims=["y", "x"], attrs={"nodata": z_nodata})
+                if H.pick(it, 7, 2):
+                    zb = zb.chunk({"y": ch["y"], "x": ch["x"]})
+                try:
+                    la = dd.hdc.zonal.mean(zz, ids, dtype=np.dtype(odt).name, dim_name="zz", name="zonal_mean")
+                    lb = dd.hdc.zonal.mean(zb, ids, dtype=np.dtype(odt).name, dim_name="zz", name="zonal_mean")
+                    ga, gb = dask.compute(la, lb, scheduler="synchronous")
+                except Exception as e:
+                    R.count(f"dask_refused_{type(e).__name__}")
+                    continue
+                R.count("accessor_dask_joint_graphs")
+                compare(R, "zonal.mean accessor (dask, first of two results in one graph)", np.asarray(ga.values), pref, zones, nz, nodata, z_nodata, odt, dict(case, accessor=True, dask=True, joint=True))
+                compare(R, "zonal.mean accessor (dask, second of two results in one graph)", np.asarray(gb.values), pref, zones_b, nz, nodata, z_nodata, odt, dict(case, accessor=True, dask=True, joint=True, zones_b=zones_b))
         if R.want_sample() and px.size < 200:
             R.sample({"pixels": px, "zones": zones, "num_zones": nz, "nodata": nodata, "z_nodata": z_nodata, "result": res})
 
